@@ -1362,9 +1362,18 @@ func CaseExpr(query *Query, current Map, expr *sqlparser.CaseExpr, opts ...ExprO
 		if err != nil {
 			return nil, err
 		}
+		// the condition may be a column: read it from the row
+		rs, err = ValueOf(query, current, rs)
+		if err != nil {
+			return nil, err
+		}
+		// a NULL condition is not true
+		if rs == nil {
+			continue
+		}
 		value, ok := rs.(bool)
 		if !ok {
-			return nil, INVALID_TYPE.Extend(fmt.Sprintf("failed to build `CASE` caluse. expected a boolean but found %T", value))
+			return nil, INVALID_TYPE.Extend(fmt.Sprintf("failed to build `CASE` caluse. expected a boolean but found %T", rs))
 		}
 		if value {
 			return Expr(query, current, when.Val, opts...)
